@@ -9,7 +9,7 @@ import itertools
 import sys
 
 from mc import runner, wfkit
-from mc.explore import Explorer, Outcome
+from mc.explore import Explorer, run_iterated, Outcome
 from mc.loop import execute
 from mc.stepdrv import Stream, deliver_all
 
@@ -313,8 +313,7 @@ def main(argv=None):
         elif i >= 24 and args.tier == "quick":
             cb[i] = 0  # systematic part: all arrival permutations (free choices), default driver/db schedule
     with Explorer(f"checks.{PROP}", cases, workers=args.workers, seed=runner.seed()) as exp:
-        stats, completed, levels = exp.run(bound, time_cap=args.time_cap or (280 if args.tier == "quick" else 1500),
-                                           case_bounds=cb)
+        stats, completed, levels = run_iterated(exp, bound, args.time_cap or (280 if args.tier == "quick" else 1500), cb, bound)
     runner.e1_report(rep, sys.modules[__name__], cases, stats, completed, levels, bound,
                      samples=[cases[2], cases[9], cases[19]],
                      extra={"trees": sorted({tree_str(c["tree"]) for c in cases})})
